@@ -106,6 +106,7 @@ type Result struct {
 	Codes   []string // reject reason classes (format strings with verbs stripped)
 	Pkgs    map[string]bool // packages owning the named types rendered by the conversions
 	NeedFmt bool            // an enum @error/@panic action is part of the plan
+	Fallible bool           // a fallible custom function is part of the plan
 	Plan    *rt.PlanSet
 	// Fallible: the top method needs an error result
 	States      map[string]bool
@@ -113,6 +114,7 @@ type Result struct {
 }
 
 type modeler struct {
+	topCtx  []*space.Ty
 	conv    *Converter
 	defs    map[string]*rt.Plan
 	res     *Result
@@ -138,6 +140,18 @@ func (m *modeler) unspec(format string, a ...any) {
 // Judge computes verdict and plan of one declared method of the converter.
 func Judge(conv *Converter, meth *Method) *Result {
 	m := &modeler{conv: conv, defs: map[string]*rt.Plan{}, res: &Result{States: map[string]bool{}, Pkgs: map[string]bool{}}, pending: map[string]bool{}}
+	m.topCtx = meth.CtxTypes
+	// two declared methods with one signature whose context sets contain each other are ambiguous
+	for i, a := range conv.Methods {
+		for _, b := range conv.Methods[i+1:] {
+			if a.Update || b.Update || a.Src == nil || b.Src == nil {
+				continue
+			}
+			if a.Src.Key() == b.Src.Key() && a.Dst.Key() == b.Dst.Key() && (ctxSubset(a.CtxTypes, b.CtxTypes) || ctxSubset(b.CtxTypes, a.CtxTypes)) {
+				m.reject("declared methods %s and %s have overlapping signatures", a.Name, b.Name)
+			}
+		}
+	}
 	root := m.method(meth)
 	m.res.Plan = &rt.PlanSet{Root: root, Defs: m.defs}
 	return m.res
@@ -164,20 +178,69 @@ func (m *modeler) method(meth *Method) *rt.Plan {
 			return m.reject("field settings on non-struct target %s", d)
 		}
 	}
-	if c := m.findExtend(meth.Src, meth.Dst); c != nil {
+	if c, exists := m.findExtendCtx(e.ctx, meth.Src, meth.Dst); c != nil {
 		return m.custom(e, c, meth.Src, meth.Dst)
+	} else if exists {
+		return m.reject("extend for %s → %s needs unavailable contexts", meth.Src, meth.Dst)
 	}
 	return m.rules(e, meth.Src, meth.Dst)
 }
 
-func (m *modeler) findExtend(s, t *space.Ty) *Custom {
-	var hit *Custom
+// extendHits returns the registered extends for the signature after goverter's override rule: a later extend replaces an
+// earlier one of the same signature when the context set of one contains the other's.
+func (m *modeler) extendHits(s, t *space.Ty) []*Custom {
+	var hits []*Custom
 	for _, c := range m.conv.Extends {
-		if c.Src != nil && c.Src.Key() == s.Key() && c.Dst.Key() == t.Key() {
-			hit = c // later registration overrides overlapping earlier one
+		if c.Src == nil || c.Src.Key() != s.Key() || c.Dst.Key() != t.Key() {
+			continue
+		}
+		replaced := false
+		for i, h := range hits {
+			if ctxSubset(h.Ctx, c.Ctx) || ctxSubset(c.Ctx, h.Ctx) {
+				hits[i] = c
+				replaced = true
+				break
+			}
+		}
+		if !replaced {
+			hits = append(hits, c)
 		}
 	}
-	return hit
+	return hits
+}
+
+func ctxSubset(a, b []*space.Ty) bool {
+	for _, x := range a {
+		found := false
+		for _, y := range b {
+			if x.Key() == y.Key() {
+				found = true
+			}
+		}
+		if !found {
+			return false
+		}
+	}
+	return true
+}
+
+// findExtend returns the extend used for (s,t) given the available contexts; exists reports whether any extend has the signature.
+func (m *modeler) findExtendCtx(avail []*space.Ty, s, t *space.Ty) (c *Custom, exists bool) {
+	hits := m.extendHits(s, t)
+	for _, h := range hits {
+		if ctxSubset(h.Ctx, avail) {
+			return h, true
+		}
+	}
+	return nil, len(hits) > 0
+}
+
+func (m *modeler) findExtend(s, t *space.Ty) *Custom {
+	hits := m.extendHits(s, t)
+	if len(hits) == 0 {
+		return nil
+	}
+	return hits[0]
 }
 
 func (m *modeler) findMethod(s, t *space.Ty) *Method {
@@ -202,10 +265,38 @@ func (m *modeler) custom(e *env, c *Custom, s, t *space.Ty) *rt.Plan {
 			return m.reject("custom %s needs unavailable context %s", c.Name, need)
 		}
 	}
+	if c.Src != nil && s != nil && !assignable(s, c.Src) {
+		return m.reject("custom %s source type %s does not accept %s", c.Name, c.Src, s)
+	}
+	if t != nil && !assignable(c.Dst, t) {
+		return m.reject("custom %s result %s not assignable to %s", c.Name, c.Dst, t)
+	}
 	if c.Err && !m.needErr(e) {
 		return m.reject("custom %s returns error but method has no error result", c.Name)
 	}
-	return &rt.Plan{Op: "custom", Fn: c.Name, Fallible: c.Err}
+	p := &rt.Plan{Op: "custom", Fn: c.Name, Fallible: c.Err}
+	for _, role := range c.ArgsFmt {
+		switch {
+		case role == "conv":
+			p.Args = append(p.Args, -2)
+		case role == "src":
+			p.Args = append(p.Args, -1)
+		case strings.HasPrefix(role, "ctx:"):
+			var ci int
+			fmt.Sscanf(role, "ctx:%d", &ci)
+			idx := -3
+			for i, tc := range m.topCtx {
+				if tc.Key() == c.Ctx[ci].Key() {
+					idx = i
+				}
+			}
+			p.Args = append(p.Args, idx)
+		}
+	}
+	if c.Err {
+		m.res.Fallible = true
+	}
+	return p
 }
 
 // needErr checks that every explicit method on the origin chain returns an error.
@@ -254,11 +345,16 @@ func (m *modeler) pos(e *env, s, t *space.Ty) *rt.Plan {
 	m.res.States[s.Key()+"→"+t.Key()] = true
 	s.UsesPkgs("\x00", m.res.Pkgs)
 	t.UsesPkgs("\x00", m.res.Pkgs)
-	if c := m.findExtend(s, t); c != nil {
+	if c, exists := m.findExtendCtx(e.ctx, s, t); c != nil {
 		return m.custom(e, c, s, t)
+	} else if exists {
+		return m.reject("extend for %s → %s needs unavailable contexts", s, t)
 	}
 	if dm := m.findMethod(s, t); dm != nil {
-		// declared method is used with its own settings
+		// declared method is used with its own settings; its contexts must be available here
+		if !ctxSubset(dm.CtxTypes, e.ctx) {
+			return m.reject("declared method %s needs unavailable contexts", dm.Name)
+		}
 		if dm.HasErr && !m.needErr(e) {
 			return m.reject("declared method %s returns error but caller has no error result", dm.Name)
 		}
@@ -864,4 +960,26 @@ func NormLit(lit string) string {
 func codeOf(format string) string {
 	f := strings.NewReplacer("%s", "_", "%v", "_", "%q", "_", "%d", "_").Replace(format)
 	return strings.Join(strings.Fields(f), "-")
+}
+
+// assignable approximates Go assignability for the types used in scenarios: identical types, identical underlying types
+// with at least one side unnamed, or an empty-interface / error target implemented by construction.
+func assignable(from, to *space.Ty) bool {
+	if from.Key() == to.Key() {
+		return true
+	}
+	if to.K == space.Iface && to.Name == "" {
+		return true
+	}
+	if (from.K != space.Named || to.K != space.Named) && from.K != space.Basic && to.K != space.Basic {
+		return underKey(from) == underKey(to)
+	}
+	return false
+}
+
+func underKey(t *space.Ty) string {
+	if t.K == space.Named {
+		return t.Under().Key()
+	}
+	return t.Key()
 }
